@@ -38,6 +38,8 @@ def srcOps : CoreOps where
   iterMutNext := Gen.IterMut_next
   iterMutNextBack := Gen.IterMut_next_back
   iterMutLen := Gen.IterMut_len
+  fillSpareWith := Gen.fill_spare_with
+  fillWith := Gen.fill_with
   drainNew := Gen.Drain_over_range
   drainNext := Gen.Drain_next
   drainNextBack := Gen.Drain_next_back
